@@ -21,7 +21,7 @@
 (*   C08  all variants of one (grammar, input) agree                         *)
 (*   C05  packed and -u variants agree                                       *)
 (***************************************************************************)
-EXTENDS LALR, Earley, Json
+EXTENDS LRDriver, Earley, Json
 
 Cases == JsonDeserialize("tcases.json")
 Trace == ndJsonDeserialize("trace.ndjson")
@@ -30,6 +30,9 @@ Trace == ndJsonDeserialize("trace.ndjson")
 CF == TLCEval([i \in DOMAIN Cases |->
         LET G == Cases[i].g S0 == States0(G)
         IN ConflictCells(G, LADef(G), S0, DeclTerms(G) \cup {End}) = {}])
+
+\* the specification's own table per case (used for C04 at behaviour level)
+STab == TLCEval([i \in DOMAIN Cases |-> TLCEval(SpecOf(Cases[i].g))])
 
 VARIABLES l, phase, cs, variant, input, stk, vstk, la, laval, fetched, dok, reds, verdict, val, nfetch, ref, prev
 vars == <<l, phase, cs, variant, input, stk, vstk, la, laval, fetched, dok, reds, verdict, val, nfetch, ref, prev>>
@@ -147,6 +150,14 @@ C06_FirstBad == (Ended /\ CF[cs] /\ ERef.status = "error") =>
                    /\ verdict = "syntaxerr"
                    /\ nfetch = ERef.pos
                    /\ fetched = SubSeq(input \o <<End>>, 1, ERef.pos)
+\* C04 (behaviour): grammar with conflicts that are all decided by the C04 rules:
+\* the generated parser does what the specification's resolved table does
+SRef == Run(Gc, STab[cs], input)
+C04_Run == (Ended /\ STab[cs].decided /\ ~CF[cs] /\ SRef.status # "diverge") =>
+              /\ (verdict = "accept") <=> (SRef.status = "accept")
+              /\ (verdict = "syntaxerr") <=> (SRef.status = "error")
+              /\ reds = SRef.reds
+              /\ nfetch = SRef.pos
 C07_Value == (Ended /\ verdict = "accept" /\ Cases[cs].valued /\ dok /\ Len(vstk) = 1) =>
                 AsStr(vstk[1], TagOf(cs, StartSym(Gc))) = val
 C08_Agree == (Ended /\ ref.variant # variant) => SameRun(Sum, ref)
